@@ -176,6 +176,12 @@ func newEventFromUntrustedJSONV2(eventJSON []byte, roomVersion IRoomVersion) (PD
 	if err = checkEventContentHash(eventJSON); err != nil {
 		res.redacted = true
 
+		// The size limit applies to the event as it was received, not to the
+		// (small) redacted copy that is kept of it.
+		if err = checkEventLength(eventJSON); err != nil {
+			return nil, err
+		}
+
 		// If the content hash doesn't match then we have to discard all non-essential fields
 		// because they've been tampered with.
 		var redactedJSON []byte
@@ -233,10 +239,19 @@ func CheckFields(input PDU) error { // nolint: gocyclo
 	if input.AuthEventIDs() == nil || input.PrevEventIDs() == nil {
 		return errors.New("gomatrixserverlib: auth events and prev events must not be nil")
 	}
-	if l := len(input.JSON()); l > maxEventLength {
-		return EventValidationError{
-			Code:    EventValidationTooLarge,
-			Message: fmt.Sprintf("gomatrixserverlib: event is too long, length %d bytes > maximum %d bytes", l, maxEventLength),
+	if err := checkEventLength(input.JSON()); err != nil {
+		return err
+	}
+
+	// The sender is checked along with the other hard limits: a sender that is
+	// too long in code points makes the event unacceptable even if the type or
+	// state key merely exceeds the (lenient) byte limit.
+	var senderErr error
+	if input.Version() != RoomVersionPseudoIDs {
+		senderErr = checkID(string(input.SenderID()), "user", '@')
+		var lenient EventValidationError
+		if senderErr != nil && !(errors.As(senderErr, &lenient) && lenient.Persistable) {
+			return senderErr
 		}
 	}
 
@@ -278,14 +293,18 @@ func CheckFields(input PDU) error { // nolint: gocyclo
 		}
 	}
 
-	switch input.Version() {
-	case RoomVersionPseudoIDs:
-	default:
-		if err := checkID(string(input.SenderID()), "user", '@'); err != nil {
-			return err
+	// nil, or the sender exceeding the lenient byte limit only
+	return senderErr
+}
+
+// checkEventLength refuses event JSON that is larger than an event may be.
+func checkEventLength(eventJSON []byte) error {
+	if l := len(eventJSON); l > maxEventLength {
+		return EventValidationError{
+			Code:    EventValidationTooLarge,
+			Message: fmt.Sprintf("gomatrixserverlib: event is too long, length %d bytes > maximum %d bytes", l, maxEventLength),
 		}
 	}
-
 	return nil
 }
 
